@@ -16,7 +16,7 @@ from vlib.run import HarnessError, Result
 
 LEVEL = "fault_enumeration"
 RULE = (
-    "workloads {idle, one command in flight, four queued commands of mixed priority, reset in progress, start-up} x NCP "
+    "workloads {idle, one command in flight, four queued commands of mixed priority, reset in progress, reset in progress with other tasks issuing commands meanwhile, start-up} x NCP "
     "version {4, 8, 13} (quick: 8) x every wire event of the fault-free run x {before, after} x failure kind {ERROR(0x51), "
     "ERROR(0x80), ERROR(0x81, a code without a name), unsolicited RSTACK(0x02 power-on), RSTACK(0x03 watchdog), RSTACK(0x04, unnamed), NCP silent, NCP answering DATA alternately with "
     "NAK and silence, connection_lost(exc), EOF, "
@@ -35,7 +35,7 @@ ASSUMPTIONS = [
 KINDS = ["error51", "error80", "error81", "rstack02", "rstack03", "rstack04", "silent", "nakflap", "lost", "eof", "close"]
 FRAME_KINDS = [k for k in KINDS if k.startswith(("error", "rstack"))]
 BOUND = 10 + 5 * 3.2 + 0.1
-WORKLOADS = ["idle", "one", "queue", "reset", "startup"]
+WORKLOADS = ["idle", "one", "queue", "reset", "reset+cmds", "startup"]
 
 
 class Boom(Exception):
@@ -185,6 +185,18 @@ async def scenario(loop, plan, out):
                     await ezsp.reset()
                     await ezsp.version()
                 start("reset+version", reset_then_version())
+            elif wl == "reset+cmds":
+                # other tasks (a watchdog, a sender) issue commands while the reset is under way: RST written, no RSTACK yet
+                async def reset_then_version():
+                    await ezsp.reset()
+                    await ezsp.version()
+
+                async def during(f, delay):
+                    await asyncio.sleep(delay)
+                    return await f()
+                start("reset+version", reset_then_version())
+                start("during-reset:nop", during(ezsp.nop, 0.001))
+                start("during-reset:getNodeId", during(ezsp.getNodeId, 0.0015))
         if plan.get("at_time") is not None:
             loop.call_later(plan["at_time"], inject)
         # run until everything ended or the bound (plus slack) passed
@@ -241,6 +253,8 @@ def check(plan) -> Result:
     stack = out["stack"]
     inj = out["inj"]
     kind = plan["kind"]
+    if stack.rx_raised:
+        r.bad("C10:receive-callback-raises", f"{stack.rx_raised[0]}; plan {plan}")
     r.cls("workload:" + plan["workload"], "kind:" + kind)
     if plan.get("noise"):
         r.cls("flow-control-noise")
@@ -254,7 +268,7 @@ def check(plan) -> Result:
         # fault-free reference run
         if out["resets"]:
             r.bad("C10:spurious-reset-request", f"{plan}")
-        if any(e[1] != "ok" for e in out["ends"]):
+        if any(e[1] != "ok" and not (e[0].startswith("during-reset:") and e[1] == "EzspError") for e in out["ends"]):
             r.bad("C10:harness:fault-free-run-fails", f"{out['ends']}; plan {plan}")
         r.note = out["n_units"]
         return r
@@ -360,7 +374,7 @@ def run(ctx):
     quick = ctx.tier == "quick"
     vs = [4, 8] if quick else list(range(4, 15))
     jobs = [(v, wl, noise, {}) for v in vs for wl in WORKLOADS for noise in (None, [0x13], [0x13, 0x11])]
-    jobs += [(v, wl, None, extra) for v in vs for wl in ("idle", "one", "queue", "reset")
+    jobs += [(v, wl, None, extra) for v in vs for wl in ("idle", "one", "queue", "reset", "reset+cmds")
              for extra in ({"stale": "timeout"}, {"stale": "cancel"}, {"giveup": 2.0}, {"giveup": 5.0, "stale": "cancel"}, {"late_app": True})]
     ctx.parallel(_worker_enum, jobs)
     ctx.exhaustive["every wire event x before/after x 8 failure kinds for the listed workloads and versions"] = True
